@@ -284,4 +284,77 @@ mod h {
         let res = check_roto_type(&mut ti, TypeId(4), &roto_leaf(4));
         assert!(res.is_err(), "CANARY:C04.check.leaf_never_matches");
     }
+
+    // ---- C04-U3: Module::get_function -------------------------------------------------------
+    use crate::codegen::{FuncId, FunctionInfo, Functions, Jit, Module, ModuleData, Name, NoCtx, SharedModuleData, TypedFunc};
+    use crate::typechecker::types::Signature;
+
+    /// package with: f(bool-leaf 0, leaf 1) -> leaf 2;  g = compiler-generated helper (no signature);
+    /// h() -> ();  every id / return_by_ref flag symbolic (ids pairwise different)
+    fn package() -> (Module<NoCtx>, [FuncId; 3], [bool; 3]) {
+        leaves();
+        let ids = [FuncId(kani::any()), FuncId(kani::any()), FuncId(kani::any())];
+        kani::assume(ids[0].0 < 1000 && ids[1].0 < 1000 && ids[2].0 < 1000);
+        kani::assume(ids[0] != ids[1] && ids[1] != ids[2] && ids[0] != ids[2]);
+        let rbr: [bool; 3] = kani::any();
+        let sig_f = Signature { parameter_types: args2(roto_leaf(0), roto_leaf(1)), return_type: roto_leaf(2) };
+        let sig_h = Signature { parameter_types: &[], return_type: Type::Unit };
+        let m = Module {
+            functions: Functions {
+                entries: [
+                    Some((Name(0x101), FunctionInfo { id: ids[0], signature: Some(sig_f), return_by_ref: rbr[0] })),
+                    Some((Name(0x102), FunctionInfo { id: ids[1], signature: None, return_by_ref: rbr[1] })),
+                    Some((Name(0x103), FunctionInfo { id: ids[2], signature: Some(sig_h), return_by_ref: rbr[2] })),
+                ],
+            },
+            inner: SharedModuleData(ModuleData { cranelift_jit: Jit }, 77),
+            type_info: info(),
+            _ctx: core::marker::PhantomData,
+        };
+        (m, ids, rbr)
+    }
+
+    macro_rules! get_function_case {
+        // $which: Some(i) = must succeed with the handle of entry i; None = must be refused
+        ($name:ident, $f:ty, $req:expr, $which:expr, $obl:literal) => {
+            #[kani::proof]
+            #[kani::unwind(10)]
+            fn $name() {
+                let (mut m, ids, rbr) = package();
+                let res: Result<TypedFunc<NoCtx, $f>, FunctionRetrievalError> = m.get_function::<$f>(Name($req));
+                let which: Option<usize> = $which;
+                match (which, &res) {
+                    (Some(i), Ok(tf)) => {
+                        assert!(tf.func == Jit.get_finalized_function(ids[i]), "OBL:C04.get.handle_is_the_machine_code_of_the_named_function");
+                        assert!(tf.return_by_ref == rbr[i], "OBL:C04.get.handle_uses_the_calling_convention_of_the_named_function");
+                        assert!(tf._module.1 == 77, "OBL:C04.get.handle_keeps_its_own_module_alive");
+                    }
+                    (None, Err(_)) => {}
+                    _ => assert!(false, $obl),
+                }
+                kani::cover!(res.is_ok() == which.is_some(), "COV:C04.get.reached");
+                core::mem::forget(res);
+            }
+        };
+    }
+    get_function_case!(c04_u3_get_true_signature, fn(R<0>, R<1>) -> R<2>, 1, Some(0), "OBL:C04.get.true_signature_is_accepted");
+    get_function_case!(c04_u3_get_nullary_unit, fn() -> R<12>, 3, Some(2), "OBL:C04.get.true_signature_is_accepted");
+    get_function_case!(c04_u3_get_wrong_return, fn(R<0>, R<1>) -> R<3>, 1, None, "OBL:C04.get.wrong_return_type_is_refused");
+    get_function_case!(c04_u3_get_unit_return_requested, fn(R<0>, R<1>) -> R<12>, 1, None, "OBL:C04.get.wrong_return_type_is_refused");
+    get_function_case!(c04_u3_get_wrong_parameter, fn(R<0>, R<2>) -> R<2>, 1, None, "OBL:C04.get.wrong_parameter_type_is_refused");
+    get_function_case!(c04_u3_get_swapped_parameters, fn(R<1>, R<0>) -> R<2>, 1, None, "OBL:C04.get.wrong_parameter_type_is_refused");
+    get_function_case!(c04_u3_get_wrong_arity, fn(R<0>) -> R<2>, 1, None, "OBL:C04.get.wrong_arity_is_refused");
+    get_function_case!(c04_u3_get_generated_helper, fn() -> R<12>, 2, None, "OBL:C04.get.compiler_generated_helper_is_refused");
+    get_function_case!(c04_u3_get_unknown_name, fn() -> R<12>, 4, None, "OBL:C04.get.unknown_name_is_refused");
+    get_function_case!(c04_u3_get_other_functions_signature, fn(R<0>, R<1>) -> R<2>, 3, None, "OBL:C04.get.signature_of_another_function_is_refused");
+    get_function_case!(c04_u3_get_qualified_name, fn() -> R<12>, 0x103, None, "OBL:C04.get.unknown_name_is_refused");
+
+    #[kani::proof]
+    #[kani::unwind(10)]
+    fn canary_c04_u3_get() {
+        let (mut m, _ids, _rbr) = package();
+        let res = m.get_function::<fn() -> R<12>>(Name(3));
+        assert!(res.is_err(), "CANARY:C04.get.never_returns_a_handle");
+        core::mem::forget(res);
+    }
 }
